@@ -119,6 +119,14 @@ class SymCtx(CtxBase):
         if r == z3.unsat:
             ex.model = saved
             self.discharged[label] = self.discharged.get(label, 0) + 1
+            every = getattr(ex, 'dump_every', 0)
+            if every:
+                ex.dump_counter = getattr(ex, 'dump_counter', 0) + 1
+                if ex.dump_counter % every == 0 and len(ex.smt_samples) < ex.dump_cap:
+                    s2 = z3.Solver()
+                    s2.add(*ex.pc)
+                    s2.add(z3.Not(c))
+                    ex.smt_samples.append((label, s2.to_smt2()))
             return True
         if r == z3.sat:
             m = ex.last_model()
